@@ -26,4 +26,54 @@ theorem readers_commute (M : P2.Lang.Methods) (fuel : Nat) (code : P2.Lang.Code)
     P2.C10.evalHistory M fuel code batch = batch.map (P2.Lang.runCompiled M fuel code) :=
   P2.C10.eval_history M fuel code batch
 
+/-! ## The shared memo cell under concurrent evaluations
+
+`List.Eval` holds the list's mutex for the whole materialisation, `iterable` takes the producer under the mutex and
+iterates outside. At the granularity of these critical sections every schedule of concurrent evaluations is a
+history of `P2.Memo` operations, and the iteration of a snapshot does not read the cell again. -/
+
+open P2.Memo in
+/-- an interleaving of the operations of two evaluations -/
+inductive Interleave : List Op → List Op → List Op → Prop
+  | nil : Interleave [] [] []
+  | left {a as bs cs} : Interleave as bs cs → Interleave (a :: as) bs (a :: cs)
+  | right {b as bs cs} : Interleave as bs cs → Interleave as (b :: bs) (b :: cs)
+
+open P2.Memo in
+theorem Interleave.mem {as bs cs : List Op} (h : Interleave as bs cs) : ∀ o ∈ cs, o ∈ as ∨ o ∈ bs := by
+  induction h with
+  | nil => intro o ho; cases ho
+  | left _ ih =>
+    intro o ho
+    rcases List.mem_cons.1 ho with rfl | h'
+    · exact Or.inl (List.mem_cons_self ..)
+    · rcases ih o h' with h1 | h1
+      · exact Or.inl (List.mem_cons_of_mem _ h1)
+      · exact Or.inr h1
+  | right _ ih =>
+    intro o ho
+    rcases List.mem_cons.1 ho with rfl | h'
+    · exact Or.inr (List.mem_cons_self ..)
+    · rcases ih o h' with h1 | h1
+      · exact Or.inl h1
+      · exact Or.inr (List.mem_cons_of_mem _ h1)
+
+open P2.Memo in
+/-- C11 on the memo cell: under EVERY interleaving of two evaluations that have enough stack for the list's own
+closures, every operation of either shows what it shows in isolation. -/
+theorem memo_concurrent_transparent (src : List Item) (evalA evalB sched : List Op) (h : Interleave evalA evalB sched)
+    (ha : ∀ o ∈ evalA, maxNeed src ≤ o.free) (hb : ∀ o ∈ evalB, maxNeed src ≤ o.free) :
+    (fresh src).outcomes sched = sched.map (isolated src) :=
+  P2.C10.memo_outcomes_transparent src sched (fun o ho => (h.mem o ho).elim (ha o) (hb o))
+
+open P2.Memo in
+/-- `iterable` is a snapshot: an iteration that started before other evaluations materialised (or failed to
+materialise) the list yields what the atomic operation yields at the moment of the snapshot — the iteration never
+reads the cell again, so nothing that happens in between can change it. -/
+theorem memo_snapshot_atomic (c : Cell) (between : List Op) (free k : Nat) :
+    let s := c.snapshot
+    let _later := c.after between
+    s.pull free k = (c.step (.iter free k)).2 :=
+  snapshot_pull c free k
+
 end P2.C11
